@@ -274,7 +274,12 @@ def make_item(p, a, r, gen_children=None):
         m = r.choice(a.info["members"])
         return enum_item(p, m, r)
     if k == "string":
-        s = rand_string(r, expression_capable(p), a.info.get("minlen"), a.info.get("maxlen"))
+        if a.info.get("literal"):
+            s = a.info["literal"]
+        elif a.info.get("pattern") and a.info["pattern"].startswith("^&#"):
+            s = "&#%d;" % r.randint(33, 99999)
+        else:
+            s = rand_string(r, expression_capable(p), a.info.get("minlen"), a.info.get("maxlen"))
         return Item("attr", key, shape="string", toks=[str_tok(s)], value=s)
     if k in ("number", "integer"):
         v = rand_number(r, a.node, k == "integer")
@@ -428,6 +433,10 @@ def gen_node(r, type_, opts, depth=1, budget=None):
             child, mode = slots[key]
             if depth < opts.max_depth and budget[0] > 0 and r.random() < opts.p_child * (0.6 ** (depth - 1)):
                 n = 1 if mode == "single" else r.choice([1, 1, 2, 3])
+                if opts.valid:
+                    mx = next((a.info["n"][1] for a in p.alts if a.kind == "blocklist" and a.info.get("n")), None)
+                    if mx is not None:
+                        n = min(n, mx)
                 for _ in range(n):
                     if budget[0] <= 0:
                         break
